@@ -175,13 +175,14 @@ def wire_details(err_tree, given):
 class C13(Prop):
     id = "C13"
     props = "C13_Props"
-    coq_files = ("Base", "C13_Consts", "C13_Model", "C13_Spec", "C13_Proofs", "C13_Proofs2", "C13_Proofs3", "C13_Proofs4", "C13_Props")
-    models = ("C13_Model",)
+    coq_files = ("Base", "C13_Consts", "C13_Model", "C13_Spec", "C13_Proofs", "C13_Proofs2", "C13_Proofs3", "C13_Proofs4", "C13_Call",
+                 "C13_CallProofs", "C13_Props")
+    models = ("C13_Call",)      # re-exports C13_Model; its c13_table holds all kinds
     consts = ("rc",)
     packages = {"rc": "internal/app/referenceclient", "rs": "internal/app/referenceserver"}
     kinds = {"c13.eos": "rc", "c13.status": "rc", "c13.binmeta": "rc", "c13.percent": "rc", "c13.classes": "rc",
              "c13.webrt": "rc", "c13.grpcrt": "rc", "c13.cerr": "rc", "c13.ces": "rc", "c13.wire": "rc",
-             "c13.nocrash": "rc", "c13.enc": "rs", "c13.cerrrt": "rc", "c13.cesrt": "rc",
+             "c13.nocrash": "rc", "c13.enc": "rs", "c13.cerrrt": "rc", "c13.cesrt": "rc", "c13.invoke": "rc",
              "c13.o.json": "rc", "c13.o.unstatus": "rc", "c13.o.webstatus": "rc", "c13.o.render": "rs",
              "c13.o.cerrrender": "rs", "c13.o.cesrender": "rs"}
     rule = ("c13.classes: all 256 bytes through ShouldEscapeByteInMessage / isValidHTTPFieldName / isValidHTTPFieldValue; "
@@ -430,6 +431,7 @@ class C13(Prop):
             cases.append(["c13.enc"] + list(q[1:]) + [[]])
         self._crashed = []
         blocks = []
+        block_src = []       # (structured error, block) of the well-formed ones
         for i, (e, r) in enumerate(zip(errors, rendered)):
             if not r:
                 continue
@@ -439,6 +441,7 @@ class C13(Prop):
             cases.append(["c13.grpcrt"] + with_digest([e[0], e[1], e[2], mo, tbl, st]))
             if i < n_wf:
                 blocks.append(block)
+                block_src.append((e, bytes(block)))
 
         # C2. the Connect protocol: structured errors through the REAL reference server handlers + connect-go
         #     (in-process): the unary error body and the end-of-stream message of a server stream
@@ -876,6 +879,10 @@ class C13(Prop):
             trs = rng.choice(status_cases) if rng.random() < 0.5 else ([[b"X-Empty", []]] if rng.random() < 0.3 else [])
             wire_raw.append([ct, st, body, eos, hdrs, trs, int(rng.random() < 0.3), int(rng.random() < 0.15)])
 
+        # K. the glue: the REAL invoke() (transport set-up, tracer, connect-go, call sites, invoker.examineWireDetails)
+        #    against a scripted HTTP server
+        inv_raw = self._invoke_scenarios(rng, quick, block_src, status_cases, json_cases, eos_texts, connect_rt)
+
         # ---- stage 2: library oracles for everything collected above
         q = []
         for t in eos_texts:
@@ -898,6 +905,17 @@ class C13(Prop):
         n_wire = len(q)
         for kind, e, text in connect_rt:
             q.append(["c13.o.json", text])
+        n_crt_q = len(q)
+        for sc in inv_raw:
+            raw = b"".join(p[1] for p in sc["parts"] if p[0] == 0)
+            eos = next((p[2] for p in sc["parts"] if p[0] == 1 and p[1] & 0x82 and p[2]), None)
+            sc["_eos"] = eos
+            q.append(["c13.o.json", raw])
+            q.append(["c13.o.json", eos if eos is not None else b""])
+            q.append(["c13.o.webstatus", eos if eos is not None else b""])
+            for hs in (sc["hdrs"], sc["trailers"]):
+                d = [v for k, v in hs if k == b"Grpc-Status-Details-Bin" and v]
+                q.append(["c13.o.unstatus", d[0][0] if d else b""])
         ans = self._oracle(q, "lib")
         for cq in self._crashed:         # an examiner / library call panicked on these bytes: "never crash" is violated
             cases.append(["c13.nocrash", cq[1]])
@@ -922,7 +940,13 @@ class C13(Prop):
                           hdrs, trs, hd, er, tbl(a[2], a[3], a[4])])
 
         n_crt = 0
-        for (kind, e, text), r in zip(connect_rt, ans[n_wire:]):
+        for i, sc in enumerate(inv_raw):
+            a = ans[n_crt_q + 5 * i: n_crt_q + 5 * i + 5]
+            cases.append(["c13.invoke"] + with_digest([sc["refmode"], sc["proto"], sc["method"], sc["status"], sc["ctype"], sc["hdrs"], sc["parts"],
+                                                      sc["trailers"], sc["ended"], a[0], a[1] if sc["_eos"] is not None else [],
+                                                      tbl(a[2], a[3], a[4])]))
+            self._count("invoke:" + sc["what"])
+        for (kind, e, text), r in zip(connect_rt, ans[n_wire:n_crt_q]):
             if not r:
                 cases.append(["c13.nocrash", text])     # the rendering is not JSON: shows up as a disagreement below
                 continue
@@ -956,6 +980,151 @@ class C13(Prop):
                 b = rng.choice(pool)[:rng.randint(0, 60)]
             cases.append(["c13.nocrash", b])
         return cases
+
+    # ------------------------------------------------------------------
+    # K. scenarios for c13.invoke
+    # ------------------------------------------------------------------
+    LONG_SIZES = (65535, 65536, 65537, 100 * 1024, 1024 * 1024)
+
+    def _invoke_scenarios(self, rng, quick, block_src, status_cases, json_cases, eos_texts, connect_rt):
+        out = []
+
+        def add(what, proto, method, status, ctype, hdrs=(), parts=(), trailers=(), ended=-1, refmode=1):
+            out.append({"what": what, "refmode": refmode, "proto": proto, "method": method, "status": status, "ctype": ctype,
+                        "hdrs": [list(h) for h in hdrs], "parts": [list(p) for p in parts], "trailers": [list(t) for t in trailers],
+                        "ended": ended})
+
+        def wire_ok(v):      # a header value that HTTP/1.1 and HTTP/2 carry unchanged
+            return all(c == 9 or 0x20 <= c != 0x7F for c in v) and v[:1] not in (b" ", b"\t") and v[-1:] not in (b" ", b"\t")
+
+        def b64_clean(v):    # decodes as unpadded standard base64 (no det-b64 / det-padded: ambiguous in the rendered feedback)
+            return all(c in b"ABCDEFGHIJKLMNOPQRSTUVWXYZabcdefghijklmnopqrstuvwxyz0123456789+/" for c in v) and len(v) % 4 != 1
+
+        def trio_ok(hs):
+            for k, vs in hs:
+                if not vs or not all(wire_ok(v) for v in vs):
+                    return False
+                if k == b"Grpc-Status-Details-Bin" and not all(b64_clean(v) for v in vs):
+                    return False
+                if k not in (b"Grpc-Status", b"Grpc-Message", b"Grpc-Status-Details-Bin"):
+                    return False
+            return True
+
+        def pct(m):
+            return "".join(chr(x) if 0x20 <= x <= 0x7E and x != 0x25 else "%%%02X" % x for x in m).encode()
+
+        def trio(code, msg=b"oops", details=None, enc=None):
+            hs = [[b"Grpc-Status", [b"%d" % code]], [b"Grpc-Message", [pct(msg) if enc is None else enc]]]
+            if details is not None:
+                hs.append([b"Grpc-Status-Details-Bin", [b64raw(details)]])
+            return hs
+
+        UNARY = (0, 2, 4)
+        # (a) unary Connect error bodies: every code, well-formed and with single malformations that leave the code readable
+        for code in range(1, 17):
+            name = CODE_NAMES[code - 1].encode()
+            good = jrender(obj((b"code", name), (b"message", b"oops")))
+            for proto in (0, 3):
+                add("connect-unary-wf", proto, rng.choice(UNARY), rng.choice([400, 404, 409, 429, 499, 500, 503, 504]), b"application/json",
+                    parts=[(0, good)], ended=code)
+            bad = [jrender(obj((b"code", name), (b"message", b"oops"), (b"extra", True))),
+                   jrender(obj((b"code", name), (b"message", b"a"), (b"message", b"oops"))),
+                   jrender(obj((b"code", name), (b"details", [obj((b"type", b"a.B"))]))),
+                   jrender(obj((b"code", name), (b"details", [obj((b"type", b"a.B"), (b"value", b"QQ=="))]))),
+                   jrender(obj((b"code", name), (b"message", b"oops"), (b"Code", name)))]
+            for b in bad:
+                add("connect-unary-malformed", rng.choice([0, 0, 3]), rng.choice(UNARY), rng.choice([400, 404, 500, 503]), b"application/json",
+                    parts=[(0, b)], ended=code)
+            add("connect-unary-http-trailers", 0, 0, 500, b"application/json", parts=[(0, good)], trailers=[(b"X-Late", [b"v"])], ended=code)
+            add("not-reference-mode", 0, 0, 500, b"application/json", parts=[(0, bad[0])], ended=code, refmode=0)
+        cerr_texts = [t for k, t, _ in json_cases if k == "c13.cerr" and len(t) < 400]
+        for t in rng.sample(cerr_texts, min(len(cerr_texts), 250 if quick else 2000)):
+            add("connect-unary-pool", rng.choice([0, 0, 3]), rng.choice(UNARY), rng.choice([400, 500, 503, 200]), b"application/json", parts=[(0, t)])
+
+        # (b) gRPC, trailers-only: every code; (c) gRPC with a response message and HTTP trailers
+        GRPC_M = (0, 1, 2, 3, 5)
+        for code in range(0, 17):
+            ct = rng.choice([b"application/grpc", b"application/grpc+proto"])
+            det_ok = status_proto(code, b"oops", [(b"type.googleapis.com/a.B", b"xy")])
+            add("grpc-trailers-only-wf", 1, rng.choice(GRPC_M), 200, ct, hdrs=trio(code, details=det_ok if code else None), ended=code if code else -1)
+            add("grpc-body-trailers-wf", 1, rng.choice([0, 1]), 200, ct, parts=[(1, 0, b"")], trailers=trio(code, b"oops" if code else b""), ended=code)
+            if code == 0:
+                continue
+            for what, hs, e in (("raw", trio(code, enc="caf\u00e9".encode()), code), ("hex", trio(code, enc=b"a%zzb"), -1),
+                                ("incomplete", trio(code, enc=b"oops%4"), -1),
+                                ("det-code", trio(code, details=status_proto(code % 16 + 1, b"oops", [])), -1),
+                                ("det-msg", trio(code, details=status_proto(code, b"other", [])), -1),
+                                ("st-multi", [[b"Grpc-Status", [b"%d" % code, b"%d" % code]], [b"Grpc-Message", [b"oops"]]], -1)):
+                add("grpc-trailers-only-" + what, 1, rng.choice(GRPC_M), 200, ct, hdrs=hs, ended=e)
+                add("grpc-body-trailers-" + what, 1, rng.choice([0, 1]), 200, ct, parts=[(1, 0, b"")], trailers=hs, ended=e)
+            add("grpcweb-trailers-only-wf", rng.choice([2, 4]), rng.choice([0, 1]), 200, b"application/grpc-web+proto", hdrs=trio(code), ended=code)
+            add("grpcweb-trailers-only-raw", rng.choice([2, 4]), rng.choice([0, 1]), 200, b"application/grpc-web+proto",
+                hdrs=trio(code, enc="caf\u00e9".encode()), ended=code)
+        pool = [hs for hs in status_cases if hs and trio_ok(hs)]
+        for hs in rng.sample(pool, min(len(pool), 250 if quick else 2000)):
+            if rng.random() < 0.5:
+                add("grpc-trailers-only-pool", 1, rng.choice(GRPC_M), 200, b"application/grpc+proto", hdrs=hs)
+            else:
+                add("grpc-body-trailers-pool", 1, rng.choice([0, 1]), 200, b"application/grpc", parts=[(1, 0, b"")], trailers=hs)
+
+        # (d) gRPC-Web: trailers in the body.  Real renderings of the reference server (silent) and the malformed pool
+        def data_msgs(method=1):      # a unary / client-stream call stops reading at a second response message
+            return [(1, 0, b"")] * (rng.choice([0, 1, 1, 2]) if method in (1, 5) else rng.choice([0, 1, 1]))
+        srcs = [bs for bs in block_src if len(bs[1]) < 600]
+        for e, blk in rng.sample(srcs, min(len(srcs), 150 if quick else 1000)):
+            add("grpcweb-end-stream-real", rng.choice([2, 2, 4]), 1, 200, b"application/grpc-web+proto", parts=data_msgs() + [(1, 0x80, blk)], ended=e[0])
+        eos_pool = [t for t in eos_texts if 0 < len(t) < 400 and b"details-bin" not in t.lower()]
+        for t in rng.sample(eos_pool, min(len(eos_pool), 300 if quick else 2500)):
+            m = rng.choice([0, 1])
+            add("grpcweb-end-stream-pool", rng.choice([2, 2, 4]), m, 200, rng.choice([b"application/grpc-web+proto", b"application/grpc-web"]),
+                parts=data_msgs(m) + [(1, 0x80, t)])
+
+        # (e) Connect streams: the end-of-stream message.  Real renderings and the pool; zero-length and repeated end-stream envelopes
+        ces_real = [(e, t) for k, e, t in connect_rt if k == "c13.cesrt" and len(t) < 600]
+        for e, t in rng.sample(ces_real, min(len(ces_real), 150 if quick else 1000)):
+            add("connect-end-stream-real", rng.choice([0, 0, 3]), 1, 200, b"application/connect+proto", parts=data_msgs() + [(1, 2, t)],
+                ended=e[1] if e[0] and 1 <= e[1] <= 16 else -1)
+        ces_pool = [t for k, t, _ in json_cases if k == "c13.ces" and 0 < len(t) < 400]
+        for t in rng.sample(ces_pool, min(len(ces_pool), 300 if quick else 2500)):
+            m = rng.choice([1, 1, 3, 5])
+            add("connect-end-stream-pool", 3 if m == 5 else rng.choice([0, 0, 3]), m, 200, b"application/connect+proto",
+                parts=data_msgs(m) + [(1, 2, t)])
+        for code in range(1, 17):
+            t = jrender(obj((b"error", obj((b"code", CODE_NAMES[code - 1].encode()), (b"message", b"oops"), (b"extra", None)))))
+            add("connect-end-stream-malformed", rng.choice([0, 3]), 1, 200, b"application/connect+proto", parts=data_msgs() + [(1, 2, t)], ended=code)
+        add("connect-end-stream-empty", 0, 1, 200, b"application/connect+proto", parts=[(1, 0, b""), (1, 2, b"")])
+        add("connect-end-stream-twice", 0, 1, 200, b"application/connect+proto", parts=[(1, 0, b""), (1, 2, b"{}"), (1, 2, b"x")])
+        add("connect-end-stream-http-trailers", 0, 1, 200, b"application/connect+proto", parts=[(1, 0, b""), (1, 2, b"{}")], trailers=[(b"X-Late", [b"v"])], ended=0)
+
+        # (f) end-stream messages around and far beyond 64 KiB, rendered by the reference server itself: a long error message
+        #     (sizes are those of the whole end-stream message) and much metadata
+        def long_msg(n):
+            unit = b"all work and no play makes jack a dull boy. "
+            return (unit * (n // len(unit) + 1))[:n]
+        probe = 1000
+        r0 = self._oracle([["c13.o.cesrender", 1, 8, long_msg(probe), [], [], 1], ["c13.o.render", 8, long_msg(probe), [], []]], "longprobe")
+        if r0[0] and r0[1]:
+            over_c, over_w = len(bytes(r0[0][0])) - probe, len(bytes(r0[1][2])) - probe
+            qs = []
+            for n in self.LONG_SIZES:
+                qs.append(["c13.o.cesrender", 1, 8, long_msg(n - over_c), [], [], 1])
+                qs.append(["c13.o.render", 8, long_msg(n - over_w), [], []])
+            many = [[b"x-t%d" % i, [b"value-%d-of-a-trailer-that-is-long" % i] * 3] for i in range(700)]    # ~ 90 KiB of metadata / trailers
+            qs.append(["c13.o.cesrender", 1, 13, b"oops", [], many, 0])
+            qs.append(["c13.o.render", 13, b"oops", [], many])
+            rs = self._oracle(qs, "long")
+            for i, (qq, r) in enumerate(zip(qs, rs)):
+                if not r:
+                    continue
+                if qq[0] == "c13.o.cesrender":
+                    t = bytes(r[0])
+                    add("long-connect-end-stream-%d" % len(t), rng.choice([0, 3]), 1, 200, b"application/connect+proto",
+                        parts=[(1, 0, b"")] * (i % 2) + [(1, 2, t)], ended=qq[2])
+                else:
+                    t = bytes(r[2])
+                    add("long-grpcweb-end-stream-%d" % len(t), rng.choice([2, 4]), 1, 200, b"application/grpc-web+proto",
+                        parts=[(1, 0, b"")] * (i % 2) + [(1, 0x80, t)], ended=qq[1])
+        return out
 
 
 PROP = C13()
